@@ -391,7 +391,8 @@ static bool enabled(int p, const struct opdef *od)
         /* (also when a resume for the same yield is already on its way: whichever comes second is void) */
         return q != p && q < D.P && proc_started(q) && D.cur[q].active && D.cur[q].od->kind == K_YIELD;
     case K_WAITP:
-        return q != p && q < D.P && D.pstate[q] != PS_CREATED;
+        /* (also a process that has been initialised but not started yet: it can have waiters before it runs) */
+        return q != p && q < D.P && D.inited[q];
     case K_WAITE:
         return q < NENVEV && D.envev[q] != 0 && cmb_event_is_scheduled(D.envev[q]);
     case K_INT: case K_STOP: case K_TCLEARO: case K_TADDO:
